@@ -40,6 +40,7 @@ TOLERANCES = {
     "K": K,
     "floor_rel": {"default": 1e-6, "tight": 1e-8},
     "wall_velocity": "2*errTol",
+    "history_rtol": 1e-9,
     "width_rel": 0.05, "offset_abs": 0.05,
     "note": "floor = K x hydrodynamics relativeTol; width/offset = envelope x5 of the run-to-run "
             "difference between tolerance settings at s=1 (Nelder-Mead default tolerances)",
@@ -69,6 +70,9 @@ def st_case(draw):
         # corners of the claimed range: the smallest / largest temperatures reachable
         if draw(st.booleans()):
             case["u"] = draw(st.sampled_from([-2.0, -1.5])) if b < 0 else draw(st.sampled_from([2.0, 1.5]))
+    if draw(st.sampled_from([False, True, True])):
+        case["history"] = {"mode": draw(st.sampled_from(["rebound", "rebound", "same-manager"])),
+                           "reregister": draw(st.booleans())}
     if draw(st.sampled_from([False, False, True])):
         parts = [{"name": "top", "y": round(draw(st.floats(0.7, 1.1)), 3), "stat": "Fermion", "dof": 12,
                   "field": 0, "m0sq": 0.0}]
@@ -81,6 +85,9 @@ def st_case(draw):
 
 def strategy(tier):
     return st_case()
+
+
+HISTORY_RTOL = 1e-9
 
 
 def _run(spec, cfg, coll=None, coll_dir=None):
@@ -172,6 +179,33 @@ def _check_case(case, coll, coll_dir) -> Verdict:
     if "setup_error" in C:
         v.discarded("s=1 other-setting setup failed")
         return v
+    hist = case.get("history")
+    if hist:
+        # call history: the user first analyses the model in the base units and then re-expresses it in the other
+        # units ON THE SAME OBJECTS (same manager; "rebound": same model / potential object, parameters changed in
+        # place and the derivative settings configured again).  Whatever the objects keep from the first analysis,
+        # the answers in the new units must be those of a fresh analysis in these units (run B).
+        H = e2e.fresh_run({"spec": dict(specs, particles=None), "cfg": cfg, "what": ["hydro", "lte"],
+                           "first": {"spec": dict(spec1, particles=None), "mode": hist["mode"],
+                                     "reregister": bool(hist.get("reregister"))}})
+        Bh = B if not case["spec"].get("particles") else e2e.fresh_run(
+            {"spec": dict(specs, particles=None), "cfg": cfg, "what": ["hydro", "lte"]})
+        v.label(f"history:{hist['mode']}")
+        if H.get("timeout") or Bh.get("timeout"):
+            v.label("history:timeout")
+        else:
+            v.checked("history")
+            hcls = f"{cls} {hist['mode']}" + (" reregistered" if hist.get("reregister") else "")
+            if ("setup_error" in H) != ("setup_error" in Bh):
+                v.fail("history", hcls + " setup", f"after an analysis in units s=1 on the same objects the set-up for s={s:g} "
+                       f"gives {H.get('setup_error', 'success')!r}, a fresh one {Bh.get('setup_error', 'success')!r}")
+            elif "setup_error" not in H:
+                worst = e2e.history_worst(H, Bh)
+                v.info["history_worst"] = list(worst)
+                if worst[0] > HISTORY_RTOL:
+                    v.fail("history", hcls, f"{worst[1]} after an analysis in units s=1 on the same objects differs from "
+                           f"a fresh analysis in units s={s:g} by {worst[0]:.3e} (relative; allowed {HISTORY_RTOL:g}): "
+                           f"{H['hydro'].get(worst[1], H.get('lte'))!r} vs {Bh['hydro'].get(worst[1], Bh.get('lte'))!r}")
     ratio = 1.0 if setting == "default" else 1e-2  # tolerances of the tight setting are 100x smaller
     floor = TOLERANCES["floor_rel"][setting]
 
